@@ -179,7 +179,7 @@ def _parse_error_line(cur):
 # Enum files
 # ---------------------------------------------------------------------------
 
-_RE_CLASSDEF = re.compile(r"classdef (\S+) < (\S+)")
+_RE_CLASSDEF = re.compile(r"classdef (\S+) < (\S.*\S|\S)")   # the base may be spelled with blanks (templated base)
 _RE_ENUMERATOR = re.compile(r"(\w+)\((\d+)\)")
 
 
@@ -262,7 +262,7 @@ _RE_CTOR_ELSEIF = re.compile(r"elseif nargin == (\d+)(.*)")
 _RE_CTOR_CALL = re.compile(
     r"(my_ptr|\[ my_ptr, base_ptr \]) = (\w+)\((\d+)((?:, varargin\{\d+\})*)\);")
 _RE_CTOR_BASE = re.compile(
-    r"obj = obj@(\S+)\(uint64\(" + _MAGIC + r"\), base_ptr\);")
+    r"obj = obj@(\S.*?)\(uint64\(" + _MAGIC + r"\), base_ptr\);")
 _RE_CTOR_ASSIGN = re.compile(r"obj\.(\w+) = my_ptr;")
 
 _RE_DELETE_CALL = re.compile(r"(\w+)\((\d+), obj\.(\w+)\);")
